@@ -5,8 +5,13 @@ package c04
 import (
 	"encoding/json"
 	"fmt"
+	"io"
+	"os"
+	"os/exec"
+	"path/filepath"
 	"runtime"
 	"sort"
+	"strings"
 	"sync"
 	"time"
 
@@ -47,6 +52,72 @@ type obs struct {
 	Trace []label `json:"trace"`
 	Done  bool    `json:"done"`
 	Panic string  `json:"panic,omitempty"`
+	Races int     `json:"races,omitempty"`
+}
+
+// executeChild runs execute in a subprocess of the (race-instrumented) harness:
+// a crash of the engine (a panic in a temporary worker goroutine cannot be
+// recovered by the caller) and race reports become observed data.
+func executeChild(raw json.RawMessage) obs {
+	dir, err := os.MkdirTemp("", "c04-")
+	if err != nil {
+		return obs{Panic: "mkdtemp: " + err.Error()}
+	}
+	defer os.RemoveAll(dir)
+	inf, outf := filepath.Join(dir, "in.json"), filepath.Join(dir, "out.json")
+	os.WriteFile(inf, raw, 0o644)
+	self, _ := os.Executable()
+	cmd := exec.Command(self, "c04child", inf, outf)
+	cmd.Env = append(os.Environ(), "GORACE=halt_on_error=0 exitcode=0 log_path="+filepath.Join(dir, "race"))
+	cmd.Stdout = io.Discard
+	var eb strings.Builder
+	cmd.Stderr = &eb
+	done := make(chan error, 1)
+	if err := cmd.Start(); err != nil {
+		return obs{Panic: "start: " + err.Error()}
+	}
+	go func() { done <- cmd.Wait() }()
+	var o obs
+	select {
+	case err := <-done:
+		b, rerr := os.ReadFile(outf)
+		if rerr != nil || json.Unmarshal(b, &o) != nil {
+			msg := eb.String()
+			if i := strings.Index(msg, "panic:"); i >= 0 {
+				msg = msg[i:]
+			}
+			if len(msg) > 200 {
+				msg = msg[:200]
+			}
+			o = obs{Panic: fmt.Sprintf("engine crashed (%v): %s", err, msg)}
+		}
+	case <-time.After(60 * time.Second):
+		cmd.Process.Kill()
+		o = obs{Panic: "child timed out"}
+	}
+	files, _ := filepath.Glob(filepath.Join(dir, "race.*"))
+	for _, f := range files {
+		b, _ := os.ReadFile(f)
+		o.Races += strings.Count(string(b), "WARNING: DATA RACE")
+	}
+	if o.Races > 0 && o.Panic == "" {
+		o.Panic = fmt.Sprintf("%d data race report(s)", o.Races)
+	}
+	return o
+}
+
+func child() {
+	var in input
+	b, err := os.ReadFile(os.Args[2])
+	if err != nil || json.Unmarshal(b, &in) != nil {
+		os.Exit(3)
+	}
+	if in.NQ < 1 {
+		in.NQ = 1
+	}
+	o := execute(in)
+	ob, _ := json.Marshal(o)
+	os.WriteFile(os.Args[3], ob, 0o644)
 }
 
 type logger struct {
@@ -210,7 +281,7 @@ func run(raw json.RawMessage) (hx.Case, error) {
 	if in.NQ < 1 {
 		in.NQ = 1
 	}
-	o := execute(in)
+	o := executeChild(raw)
 	nev := len(in.Init)
 	var progTerms []string
 	for _, id := range sortedIDs(in.Prog) {
@@ -378,12 +449,16 @@ func shrink(raw json.RawMessage) []json.RawMessage {
 }
 
 func init() {
+	if len(os.Args) >= 4 && os.Args[1] == "c04child" {
+		child()
+		os.Exit(0)
+	}
 	hx.Register(&hx.Prop{
 		ID:      "C04",
 		Imports: "From Akita Require Import Lib.Base C04.Model C04.Exec.",
 		Rule: "scripted handler programs (random forests of 2..30 and 60..250 events; a handler schedules its children at delay 0 = same " +
 			"instant, or 10/20 ps later, primary or secondary, busy-loops a random time) run on the real ParallelEngine with GOMAXPROCS in " +
-			"{1,2,4,16} under the race detector; every handler start / end / Schedule is appended to one mutex-protected log (atomic logical " +
+			"{1,2,4,16} under the race detector, each run in a subprocess of the harness (a crash or a race report is an observation); every handler start / end / Schedule is appended to one mutex-protected log (atomic logical " +
 			"clock). Directed: 40 sibling secondaries each scheduling a same-instant primary (the known corner), same-instant chains " +
 			"primary->secondary->primary, empty and single-event runs. Non-trivial: >= 3 events and some same-instant Schedule call. " +
 			"Distinct = distinct input hash.",
